@@ -156,3 +156,22 @@ package native
 //@ call NewBigInteger requires[amount] arg0 == amount
 //@ call AddNotification requires[event] arg1 == old(c.Hash) && string(arg2) == "Transfer"
 //@ ensures[one] ncalls(AddNotification) == 1 && ncalls(addrToStackItem) == 2
+
+// ================= C05: NEO vote bookkeeping (voters count) =================
+// The voters count (key 0x01) is the NEO held by all voting accounts. It moves by the amount
+// given; a vote changes it exactly when the account switches between voting and not voting,
+// by the account's whole balance.
+//@ func (*NEO).modifyVoterTurnout
+//@ requires n != nil && d != nil && amount != nil
+//@ modifies dao.kv(d, n.ID)["\x01"], dao.kvBal(d, n.ID)["\x01"], dao.kvOk(d, n.ID)["\x01"]
+//@ ensures[absent] (result != nil) == !old(has(dao.kv(d, n.ID), "\x01"))
+//@ ensures[added] result == nil ==> has(dao.kv(d, n.ID), "\x01") && dao.kv(d, n.ID)["\x01"] == old(dao.kv(d, n.ID)["\x01"]) + amount.v
+//@ ensures[kept] result != nil ==> unchanged(dao.kv(d, n.ID))
+
+//@ func (*NEO).voteInternalUncheckedDeferrable
+//@ may-panic
+//@ opt frame off
+//@ opt callbacks pure
+//@ requires n != nil && ic != nil && ic.DAO != nil
+//@ call modifyVoterTurnout requires[turnout] (acc.VoteTo == nil) != (pub == nil) && arg2.v == ite(pub == nil, -(&acc.Balance).v, (&acc.Balance).v) && ncalls(modifyVoterTurnout) == 0
+//@ call distributeGas requires[counted] ncalls(modifyVoterTurnout) == ite((acc.VoteTo == nil) != (pub == nil), 1, 0)
